@@ -399,6 +399,165 @@ def rust_width(ty):
             "u8": "8", "i8": "8", "bool": "8"}.get(ty, "32")
 
 
+
+def _cursor_inside_data_rule(ctx, st):
+    """the read cursor of an open file handle never leaves its data: every store to a `position` field of a handle that also has
+    `data` is clamped by that data's length on every value it can take (each arm of a `match`, each branch of an `if`), and every
+    `position += n` adds an n that is min()-bounded by the bytes remaining.  (SFileReadFile slices `data[position..position+n]`
+    and subtracts `len - position`: both rely on it; a seek arm that forgets the clamp turns the next read into an abort.)"""
+    R = ctx.rule("C19.file-cursor-stays-inside-the-data", "every store to a handle's `position` is `min(.., data.len())`-clamped on each value it can take (or the literal 0), and every `position += n` has n = min(.., len - position)", floor=3)
+
+    def is_len(e):
+        return bool(re.search(r"\.data\.len\(\)$", hirq.render(hirq.strip(e))))
+
+    def clamped(body, e, lets, depth=0):
+        """every value e can take is bounded by data.len()"""
+        outs = []
+        for t in hirq.tails(e):
+            t = hirq.strip(t)
+            if t.get("k") in ("ret",) or (t.get("k") == "block" and any(x.get("k") == "ret" for x in hirq.walk(t))):
+                continue                                   # an arm that leaves the function stores nothing
+            if hirq.lit_int(t) == 0:
+                continue
+            if t.get("k") == "mcall" and t["m"] in ("min", "clamp") and (any(is_len(a) or lenlike(body, a, lets) for a in t["args"]) or is_len(t["recv"]) or lenlike(body, t["recv"], lets)):
+                continue
+            if t.get("k") == "call" and re.search(r"cmp::min$", t.get("fn") or "") and any(is_len(a) or lenlike(body, a, lets) for a in t["args"]):
+                continue
+            if t.get("k") == "path" and (t.get("res") or {}).get("local") in lets and depth < 4:
+                if clamped(body, lets[t["res"]["local"]], lets, depth + 1):
+                    continue
+            outs.append(t)
+        return not outs
+
+    def lenlike(body, e, lets):
+        e = hirq.strip(e)
+        return e.get("k") == "path" and (e.get("res") or {}).get("local") in lets and is_len(lets[e["res"]["local"]])
+
+    def remaining_bounded(body, e, lets, depth=0):
+        """e = min(.., r) with r = len.saturating_sub(position) / len - position"""
+        for t in hirq.tails(e):
+            t = hirq.strip(t)
+            if t.get("k") == "path" and (t.get("res") or {}).get("local") in lets and depth < 4:
+                if remaining_bounded(body, lets[t["res"]["local"]], lets, depth + 1):
+                    continue
+                return False
+            args = ([t["recv"]] + t["args"]) if t.get("k") == "mcall" and t["m"] == "min" else (t.get("args") if t.get("k") == "call" and re.search(r"cmp::min$", t.get("fn") or "") else None)
+            if not args:
+                return False
+            ok = False
+            for a in args:
+                for v in hirq.value_leaves(body, a):
+                    if v is None:
+                        continue
+                    r_ = hirq.render(v)
+                    if re.search(r"\.data\.len\(\)(\.saturating_sub\(|\.checked_sub\(| - ).*\.position", r_):
+                        ok = True
+            if not ok:
+                return False
+        return True
+    for f in st.fn_list:
+        if f.kind == "Closure" or not f.hir or "::tests::" in f.path:
+            continue
+        body = f.hir["body"]
+        lets = {l["pat"]["name"]: l["init"] for l in hirq.find(body, "let") if l["pat"].get("k") == "bind" and l.get("init") is not None}
+        for a in hirq.walk(body):
+            if a.get("k") not in ("assign", "assignop"):
+                continue
+            l_ = hirq.strip(a["l"])
+            if l_.get("k") != "field" or l_["name"] != "position":
+                continue
+            ctx.saw_fn(f)
+            name = norm(f.path).split("::")[-1]
+            inst = {"fn": name, "store": hirq.render(a)[:70]}
+            if a["k"] == "assign":
+                good = clamped(body, a["r"], lets)
+                why = "a value it can take is not `min(.., data.len())`"
+            else:
+                good = a.get("op") in ("+", "Add", "+=") and remaining_bounded(body, a["r"], lets)
+                why = "the amount added is not min()-bounded by `data.len() - position`"
+            if good:
+                ctx.ok(R, inst)
+            else:
+                ctx.bad(R, "%s|position-store" % name, "%s:%d" % (f.file, a.get("ln") or 0), "`%s`: %s" % (inst["store"], why),
+                        "after such a store the cursor can lie beyond the end of the data: the next SFileReadFile computes `len - position` / slices `data[position..]` and aborts the process (a seek beyond either end must be harmless)")
+    # struct literals initialising the field
+    for f in st.fn_list:
+        if f.kind == "Closure" or not f.hir or "::tests::" in f.path:
+            continue
+        for n in hirq.find(f.hir["body"], "struct"):
+            fd = dict((nm, e) for nm, e in n["fields"])
+            if "position" in fd and "data" in fd:
+                if hirq.lit_int(hirq.strip(fd["position"])) == 0:
+                    ctx.ok(R, {"fn": norm(f.path).split("::")[-1], "init": "position: 0"})
+                else:
+                    ctx.bad(R, "%s|position-init" % norm(f.path).split("::")[-1], "%s:%d" % (f.file, n.get("ln") or 0), "a handle is created with position `%s`" % hirq.render(fd["position"])[:40], "the cursor of a fresh handle must be 0")
+
+
+
+def _handle_codec_rule(ctx, st):
+    """forged handles are reported as errors: the decoder of handle values (handle_to_id) must accept only values the encoder
+    (id_to_handle) can have issued — for every handle value h in 1..=4096, decode(h) = Some(id) implies encode(id) == h (and
+    decode(encode(id)) = Some(id) for id in 1..=255).  A decoder that drops bits without checking them lets up to 2^k - 1 values
+    that were never issued reach a live object."""
+    from .c10 import _ival, _bval, _NoEval
+    R = ctx.rule("C19.only-issued-handle-values-decode", "handle_to_id(h) = Some(id) implies id_to_handle(id) == h for every h in 1..=4096, and handle_to_id(id_to_handle(id)) = Some(id) for id in 1..=255", floor=1)
+    dec = next((f for f in st.fn_list if f.hir and f.kind != "Closure" and norm(f.path).endswith("::handle_to_id")), None)
+    enc = next((f for f in st.fn_list if f.hir and f.kind != "Closure" and norm(f.path).endswith("::id_to_handle")), None)
+    if dec is None or enc is None:
+        ctx.bad(R, "handle-codec|missing", "-", "handle_to_id / id_to_handle not found", "anchor gone")
+        return
+    ctx.saw_fn(dec)
+    ctx.saw_fn(enc)
+    dp = [b for p_ in dec.hir["params"] for b in hirq.pat_binds(p_)]
+    ep = [b for p_ in enc.hir["params"] for b in hirq.pat_binds(p_)]
+    dlets = {l["pat"]["name"]: l["init"] for l in hirq.find(dec.hir["body"], "let") if l["pat"].get("k") == "bind" and l.get("init") is not None}
+    elets = {l["pat"]["name"]: l["init"] for l in hirq.find(enc.hir["body"], "let") if l["pat"].get("k") == "bind" and l.get("init") is not None}
+
+    def decode(n, h):
+        n = hirq.strip(n)
+        while n.get("k") == "block" and n.get("e") is not None and all(x.get("k") in ("let", "letx") for x in n.get("stmts") or []):
+            n = hirq.strip(n["e"])
+        env = {dp[0]: h, "__ty__": st.ty}
+        if n.get("k") == "if":
+            c = n["c"]
+            r_ = hirq.render(c)
+            if re.fullmatch(r"%s\.is_null\(\)" % re.escape(dp[0]), r_):
+                cv = h == 0
+            elif re.fullmatch(r"!%s\.is_null\(\)" % re.escape(dp[0]), r_):
+                cv = h != 0
+            else:
+                cv = _bval(c, env, dlets)
+            return decode(n["then"] if cv else n["else"], h)
+        if n.get("k") == "ret":
+            return decode(n["e"], h)
+        if n.get("k") == "path" and (n["res"].get("def") or "").endswith("Option::None"):
+            return None
+        if n.get("k") == "call" and (n.get("fn") or "").endswith("Option::Some"):
+            return _ival(n["args"][0], env, dlets)
+        raise _NoEval(hirq.render(n)[:40])
+    try:
+        bad = None
+        for h in range(1, 4097):
+            i = decode(dec.hir["body"], h)
+            if i is None:
+                continue
+            back = _ival(enc.hir["body"], {ep[0]: i, "__ty__": st.ty}, elets)
+            if back != h and bad is None:
+                bad = "handle value 0x%X decodes to id %d, but id %d is issued as 0x%X" % (h, i, i, back)
+        for i in range(1, 256):
+            h = _ival(enc.hir["body"], {ep[0]: i, "__ty__": st.ty}, elets)
+            if decode(dec.hir["body"], h) != i and bad is None:
+                bad = "id %d is issued as 0x%X, which decodes to %r" % (i, h, decode(dec.hir["body"], h))
+    except _NoEval as e:
+        ctx.bad(R, "handle-codec|not-evaluable", dec.where, "handle codec not evaluable: %s" % e, "shape changed")
+        return
+    if bad:
+        ctx.bad(R, "handle-codec|forged-values-decode", dec.where, bad,
+                "a value the library never handed out is accepted by every entry point as the live object whose handle it resembles (read, search, even close it): forged handles must be reported as invalid")
+    else:
+        ctx.ok(R, {"decoder": hirq.render(dec.hir["body"])[:80], "encoder": hirq.render(enc.hir["body"])[:60], "handles": 4096, "ids": 255})
+
+
 def run(ctx):
     prog = ctx.prog
     st = prog.crate("storm")
@@ -417,6 +576,8 @@ def run(ctx):
     # SFileSetFilePointer: (low, *high) follow the Win32 / StormLib convention — with a NULL high pointer the low part is a *signed*
     # 32-bit distance; with a high part the pair is one 64-bit value.  Decided by evaluating the composition over both conventions
     # for every distance a caller can express within +-2^31 (what an in-memory file can hold)
+    _cursor_inside_data_rule(ctx, st)
+    _handle_codec_rule(ctx, st)
     R_seek = ctx.rule("C19.seek-distance-composition", "SFileSetFilePointer composes (low, high) into the 64-bit distance d for d in {-2^31, -65536, -30, -1, 0, 1, 30, 65536, 2^31-1}, both with high == NULL (low = d) and with high = d >> 32, low = d & 0xFFFFFFFF", floor=2)
     sp = next((f_ for f_ in st.fn_list if f_.hir and f_.kind != "Closure" and f_.path.endswith("SFileSetFilePointer")), None)
     if sp is None:
